@@ -18,6 +18,7 @@ Inductive hcmd :=
 | HGlobal (ro mw fl rs : Z)                              (* enter a temporary global-duration override *)
 | HUnglobal                                              (* leave the innermost override *)
 | HObsListing | HObsDuration                             (* observations the model answers *)
+| HObsCopy                                               (* listing of circuit_structure.copy(): answered by copy_nodes *)
 | HObsOther.                                             (* acquisition indices / Stim text / copy / plot: judged by spec_ok only *)
 
 Record hstate := { hs_nodes : option (list node);       (* None: outside the model (flatten returned None) *)
@@ -65,7 +66,7 @@ Definition hstep (s : hstate) (c : hcmd) : hstate :=
                  | [] => s
                  | g :: t => {| hs_nodes := hs_nodes s; hs_glob := g; hs_outer := t; hs_reg := hs_reg s |}
                  end
-  | HObsListing | HObsDuration | HObsOther => s
+  | HObsListing | HObsDuration | HObsCopy | HObsOther => s
   end.
 
 (* the answers of the model to the observations of a history, in order: Some obs, or None when outside the model *)
@@ -76,10 +77,12 @@ Fixpoint hrun (s : hstate) (h : list hcmd) : list (option obs) :=
       match c with
       | HObsListing | HObsDuration =>
           (match hs_nodes s with Some ns => Some (model_obs (hs_env s) ns) | None => None end) :: hrun s t
+      | HObsCopy =>
+          (match hs_nodes s with Some ns => Some (model_obs (hs_env s) (copy_nodes (hs_env s) ns)) | None => None end) :: hrun s t
       | _ => hrun (hstep s c) t
       end
   end.
 
 (* erasing observations *)
-Definition is_obs (c : hcmd) : bool := match c with HObsListing | HObsDuration | HObsOther => true | _ => false end.
+Definition is_obs (c : hcmd) : bool := match c with HObsListing | HObsDuration | HObsCopy | HObsOther => true | _ => false end.
 Definition erase (h : list hcmd) : list hcmd := filter (fun c => negb (is_obs c)) h.
